@@ -23,6 +23,7 @@ import json
 import os
 import random
 import re
+import shutil
 
 import c20_schema
 import lib
@@ -49,8 +50,8 @@ def A(name, typ, val, var=""):
     return {"name": name, "type": typ, "var": var, "val": json.dumps(val, separators=(",", ":")), "str": val if isinstance(val, str) else ""}
 
 
-def OP(sel, kind="query", fed=None):
-    return {"kind": kind, "fed": fed or [], "sel": sel}
+def OP(sel, kind="query", fed=None, dv=""):
+    return {"kind": kind, "dv": dv, "fed": fed or [], "sel": sel}
 
 
 def op_sha(op):
@@ -393,6 +394,38 @@ def choose_res(schema, groups, rng, cap_interesting, cap_other):
     return out, len(ii), len(oo)
 
 
+def abstract_below_resolver_without_fragment(schema, op):
+    """class: an interface / union field nested in the response message of a field resolver (or @requires field) and
+    selected ONLY through fields of the abstract type itself (no inline fragment)"""
+    for s, tn, f in walk(schema, op):
+        if f["in_resolver"] and s["k"] == "f" and s["sel"] and s["name"] != "__typename":
+            nt = schema.named(tn, s["name"])
+            if nt and schema.is_abstract(nt) and all(x["k"] == "f" for x in s["sel"]):
+                return True
+    return False
+
+
+def with_dv(groups, dv):
+    """the same operations asked against a data variant of the service (driver: variantService, spec: GQLShapeData)"""
+    out = collections.OrderedDict()
+    for g, v in groups.items():
+        base = dict(v["base"], dv=dv)
+        vs = [dict(r, op=dict(r["op"], dv=dv), base=base) for r in v["vars"]] if isinstance(v["vars"], list) else \
+             [dict(r, op=dict(r["op"], dv=dv), base=base) for r in v["vars"].values()]
+        out[op_sha(base)] = {"base": base, "vars": vs}
+    return out
+
+
+def choose_first(groups, pred, rng, max_groups, max_vars):
+    """choose(): groups whose base satisfies pred first"""
+    yes = collections.OrderedDict((g, v) for g, v in groups.items() if pred(v["base"]))
+    no = collections.OrderedDict((g, v) for g, v in groups.items() if g not in yes)
+    out = choose(yes, rng, max_groups, max_vars)
+    if len(out) < max_groups:
+        out.update(choose(no, rng, max_groups - len(out), max_vars))
+    return out, len(yes)
+
+
 def reuse_cases(schema, groups, rng, seed, max_groups, max_vars):
     """reuse lane: ONE planned datasource per group is loaded with the variables of base, v1, base, v2, ... (v = the same
     operation with other argument values, TLC action Revalue); each reuse answer is paired with the answer of a freshly
@@ -708,6 +741,10 @@ def run(ctx):
     quick = ctx.quick()
     sdl_file, schema = sync_schema(ctx)
     binary = ctx.build("grpc")
+    # run a private copy: the shared .build-<hash> directories are removed by other agents' clean-ups while a check runs
+    private = ctx.path("grpc-driver")
+    shutil.copy2(binary, private)
+    binary = private
     if ctx.replay_in:
         return do_replay(ctx, binary, sdl_file, schema)
     # ---- 1. model checking ------------------------------------------------------------------------------------
@@ -736,9 +773,26 @@ def run(ctx):
     # exhaustive set over the roots of the data universe (GQLShapeData): every selection of <= 3 fields, one reformulation each
     g5 = ctx.tlc_must_pass(CORE, "Gen_C20", "Gen_C20_data.cfg", timeout=1500, deadlock=False, workers=8, tag="gen-bfs-data-universe-roots")
     data_groups = group_records(g5.printed)
-    data_sel = choose(data_groups, rng, 350 if quick else 10 ** 9, 1 if quick else 2)
+    data_sel = choose(data_groups, rng, 250 if quick else 10 ** 9, 1 if quick else 2)
+    # (5) abstract fields below field resolvers with / without fragments; (6) nested lists with null inner lists and
+    # (7) default-valued resolver context fields: data variant v1 of the service
+    g6 = ctx.tlc_must_pass(CORE, "Gen_C20", "Gen_C20_abs.cfg", timeout=1500, deadlock=False, workers=8, tag="gen-bfs-abstract-below-resolver")
+    abs_sel, n_abs = choose_first(group_records(g6.printed), lambda o: abstract_below_resolver_without_fragment(schema, o), rng,
+                                  110 if quick else 10 ** 9, 2)
+    g7 = ctx.tlc_must_pass(CORE, "Gen_C20", "Gen_C20_nl.cfg", timeout=1500, deadlock=False, workers=8, tag="gen-bfs-nested-lists-null-inner")
+    nl_sel = with_dv(choose(group_records(g7.printed), rng, 60 if quick else 10 ** 9, 2), "v1")
+    g8 = ctx.tlc_must_pass(CORE, "Gen_C20", "Gen_C20_ctx.cfg", timeout=1500, deadlock=False, workers=8, tag="gen-bfs-resolver-context")
+    ctx_groups = group_records(g8.printed)
+    has_res = lambda o: any(f["is_resolver"] for _, _, f in walk(schema, o))
+    ctx_v1, n_ctx = choose_first(ctx_groups, has_res, rng, 100 if quick else 10 ** 9, 2)
+    ctx_v1 = with_dv(ctx_v1, "v1")
+    ctx_st, _ = choose_first(ctx_groups, has_res, rng, 40 if quick else 1500, 1)
+    ctx.log("classes 5-7: abstract-below-resolver %d bases w/o fragment, chosen %d groups; nested-list variant %d groups; resolver-context %d bases with resolvers, chosen %d (v1) + %d (stock)" % (
+        n_abs, len(abs_sel), len(nl_sel), n_ctx, len(ctx_v1), len(ctx_st)))
+    g6.printed = g7.printed = g8.printed = None
+    del ctx_groups
     res_sel, n_int, n_oth = choose_res(schema, res_groups, rng, 400 if quick else 10 ** 9, 100 if quick else 3000)
-    rcases = reuse_cases(schema, reuse_groups, rng, ctx.seed, 120 if quick else 1500, 3)
+    rcases = reuse_cases(schema, reuse_groups, rng, ctx.seed, 100 if quick else 1500, 3)
     ctx.log("targeted: duplicate-before-resolver %d pairs (+%d other) of the users/categories orbit set, chosen %d; reuse lane %d groups, %d loads" % (
         n_int, n_oth, sum(len(v["vars"]) for v in res_sel.values()), len({c["group"] for c in rcases}), len(rcases) // 2))
     if quick:
@@ -755,7 +809,9 @@ def run(ctx):
     del bfs_groups, sim_groups, res_groups, reuse_groups, recs2, data_groups
     # ---- 3./4./5. replay on the real datasource, no-oracle checks, TLC validation --------------------------------
     gen = Batch(ctx, schema, binary, sdl_file, "gen")
-    gen.write_cases(cases_of(bfs_sel, ctx.seed, "b") + cases_of(sim_sel, ctx.seed, "s") + cases_of(res_sel, ctx.seed, "d") + cases_of(data_sel, ctx.seed, "v") + rcases)
+    gen.write_cases(cases_of(bfs_sel, ctx.seed, "b") + cases_of(sim_sel, ctx.seed, "s") + cases_of(res_sel, ctx.seed, "d") + cases_of(data_sel, ctx.seed, "v")
+                    + cases_of(abs_sel, ctx.seed, "a") + cases_of(nl_sel, ctx.seed, "n") + cases_of(ctx_v1, ctx.seed, "c") + cases_of(ctx_st, ctx.seed, "k") + rcases)
+    del abs_sel, nl_sel, ctx_v1, ctx_st
     del bfs_sel, sim_sel, res_sel, data_sel, rcases
     gen.run()
     pr = Batch(ctx, schema, binary, sdl_file, "probes")
@@ -791,6 +847,7 @@ def run(ctx):
         "lane 'norm' applies astnormalization exactly as graphql_datasource.printOperation does before it builds the gRPC datasource; "
         "named fragments, root-level fragments, fragments on the enclosing object type and same-key duplicates are only checked in that lane",
         "reuse lane: one planned datasource answers a sequence of variable sets (base, v1, base, v2, ...); every answer must agree at every position with the answer of a freshly planned datasource (history independence); queries only",
+        "data variant v1 (driver variantService: categories with an empty name in the middle, a blog post with null inner lists) is service data the stock mock never returns; its universe is GQLShapeData!CategoriesV1 / BlogPostV1",
         "entity fetches follow the federation contract (one fragment per representation type, each selecting __typename)",
         "response key order is not part of the shape (keys are compared as a set, duplicates forbidden)",
     ]
